@@ -118,6 +118,8 @@ EXC_BASES = {
     "ValidationError": "ValueError",  # pydantic.ValidationError subclasses ValueError
     "UnsupportedOperationError": "AttributeError",
     "UnicodeDecodeError": "ValueError",
+    "NameError": "Exception",
+    "UnboundLocalError": "NameError",
     "JSONDecodeError": "ValueError",
 }
 
@@ -559,6 +561,9 @@ class Interp:
             if orig is None:
                 return ModuleVal(tmi)
             return self.resolve_name(cx, Frame(tmi, "<module>", Env(None), spec=fr.spec), orig)
+        fnode = mi.funcs.get(fr.qual)
+        if fnode is not None and name in assigned_names(fnode.body):
+            cx.py_raise("UnboundLocalError", f"local variable '{name}' referenced before assignment")
         raise Unsupported(f"unresolved name '{name}' in {fr.qual}")
 
     # ---- attribute lookup on objects of repo classes ------------------------------------------
